@@ -507,4 +507,217 @@ theorem inv_ev {T : Nat} {cap : Ch → Nat} {s s1 : State} {e : Ev} {M : List ME
         · simp [hdc] at hd
           exact hclC d hd
 
+/-! ## safety and progress from the invariant -/
+
+/-- what the theorems state of every reachable state: not the panic state; a goroutine about to release its token finds `sem`
+open and not full; the state is final (every goroutine has run to its end) or some goroutine can make a step -/
+def Safe (cap : Ch → Nat) (s : State) : Prop :=
+  s.panic = false ∧
+  (∀ g ∈ s.gs, g.head? = some (.send .sem) → s.closed .sem = false ∧ s.buf .sem < cap .sem) ∧
+  (s.final ∨ ∃ i s', step cap s i = some s')
+
+theorem shape_head {e : Ev} {g : List Ev} (h : Shape (e :: g)) :
+    e = .recv .sem ∨ e = .send .sem ∨ (∃ j, e = .send (.chunk j)) ∨ (∃ j, e = .send (.split j)) ∨
+    (∃ j, e = .recv (.split j)) ∨ (∃ j, e = .close (.split j)) := by
+  unfold Shape at h
+  rcases h with h | ⟨j, h | h | h⟩ | ⟨j, h | h | h⟩ | ⟨j, h | h | h⟩ <;> simp [W, Cj] at h <;> obtain ⟨h1, _⟩ := h <;> subst h1 <;> simp
+
+theorem sem_slack {T : Nat} {s : State} (h : Inv T s) :
+    s.buf .sem + (mflat s.main).count (.send .sem) + gsum hold s.gs = T + (mflat s.main).count (.recv .sem) := by
+  have hb := h.bal .sem
+  have := gsum_add (List.count (.send .sem)) (List.count (.recv .sem)) hold s.gs
+    (fun g hg => (shape_facts (h.shape g hg)).2.2.2.1)
+  simp only [cnt, if_true] at hb; omega
+
+theorem gor_step {cap : Ch → Nat} {s s1 : State} {e : Ev} {g g' : List Ev} (hp : s.panic = false) (hg : g ∈ s.gs)
+    (he : g = e :: g') (hx : execEv cap s e = some s1) : ∃ i s', step cap s i = some s' := by
+  obtain ⟨k, hk⟩ := List.getElem?_of_mem hg
+  refine ⟨k + 1, ?_⟩
+  subst he
+  simp [step, hp, hk, hx]
+
+/-- a release is never blocked and never hits a closed channel -/
+theorem release_ok {T semCap : Nat} {s : State} (hTc : T ≤ semCap) (h : Inv T s) {g : List Ev} (hg : g ∈ s.gs)
+    (hh : g.head? = some (.send .sem)) : s.closed .sem = false ∧ s.buf .sem < semCap := by
+  have hcnt : 1 ≤ List.count (.send .sem) g := by
+    cases g with
+    | nil => simp at hh
+    | cons e g' => simp at hh; subst hh; simp
+  have h1 := gsum_mem_le (List.count (.send .sem)) s.gs g hg
+  constructor
+  · cases hc : s.closed .sem with
+    | false => rfl
+    | true => have := h.clS .sem hc; simp only [cnt] at this; omega
+  · have h2 := sem_slack h
+    have h3 := gsum_mem_le hold s.gs g hg
+    have h4 : hold g = 1 := by simp [hold, hh]
+    have h5 := (mflat_facts h.mok).2
+    omega
+
+/-- heads that are enabled outright -/
+theorem enabled_direct {T semCap : Nat} {s : State} (hTc : T ≤ semCap) (h : Inv T s) {g g' : List Ev} {e : Ev} (hg : g ∈ s.gs)
+    (he : g = e :: g')
+    (hk : e = .send .sem ∨ (∃ j, e = .send (.chunk j)) ∨ (∃ j, e = .send (.split j)) ∨ (∃ j, e = .close (.split j))) :
+    ∃ i s', step (capOf semCap) s i = some s' := by
+  have hcnt : 1 ≤ cnt e s := by
+    have h1 := gsum_mem_le (List.count e) s.gs g hg
+    have : 1 ≤ List.count e g := by subst he; simp
+    simp only [cnt]; omega
+  rcases hk with hk | ⟨j, hk⟩ | ⟨j, hk⟩ | ⟨j, hk⟩ <;> subst hk
+  · obtain ⟨h1, h2⟩ := release_ok hTc h hg (by subst he; simp)
+    exact gor_step h.np hg he (s1 := _) (by simp [execEv, h1, h2, capOf]; rfl)
+  · have hc : s.closed (.chunk j) = false := by
+      cases hc : s.closed (.chunk j) with
+      | false => rfl
+      | true => have := h.clS _ hc; omega
+    have hb := h.bal (.chunk j)
+    have := (h.rc j).1
+    simp at hb
+    have hb0 : s.buf (.chunk j) < 1 := by omega
+    exact gor_step h.np hg he (s1 := _) (by simp [execEv, hc, capOf, hb0]; rfl)
+  · have hc : s.closed (.split j) = false := by
+      cases hc : s.closed (.split j) with
+      | false => rfl
+      | true => have := h.clS _ hc; omega
+    have hb := h.bal (.split j)
+    have := (h.rc j).2
+    simp at hb
+    have hb0 : s.buf (.split j) < 2 := by omega
+    exact gor_step h.np hg he (s1 := _) (by simp [execEv, hc, capOf, hb0]; rfl)
+  · have hc : s.closed (.split j) = false := by
+      cases hc : s.closed (.split j) with
+      | false => rfl
+      | true => have := h.clC _ hc; omega
+    exact gor_step h.np hg he (s1 := _) (by simp [execEv, hc]; rfl)
+
+theorem recv_step {cap : Ch → Nat} {s : State} {c : Ch} (hb : 0 < s.buf c ∨ s.closed c = true) :
+    ∃ s1, execEv cap s (.recv c) = some s1 := by
+  by_cases h0 : 0 < s.buf c
+  · exact ⟨_, by simp [execEv, h0]; rfl⟩
+  · rcases hb with hb | hb
+    · exact absurd hb h0
+    · exact ⟨_, by simp [execEv, h0, hb]; rfl⟩
+
+/-- a goroutine waiting for a token, once the main goroutine only receives: a token is there or a holder can release -/
+theorem enabled_recv_sem {T semCap : Nat} {s : State} (hT1 : 1 ≤ T) (hTc : T ≤ semCap) (h : Inv T s)
+    (hph : ∀ y ∈ s.main, 1 ≤ rank y) {g g' : List Ev} (hg : g ∈ s.gs) (he : g = .recv .sem :: g') :
+    ∃ i s', step (capOf semCap) s i = some s' := by
+  by_cases hb : 0 < s.buf .sem ∨ s.closed .sem = true
+  · obtain ⟨s1, h1⟩ := recv_step (cap := capOf semCap) hb
+    exact gor_step h.np hg he h1
+  · have h2 := sem_slack h
+    obtain ⟨hs, hr, _⟩ := mflat_phase h.mok hph
+    have hs' := hs .sem
+    have hb0 : s.buf .sem = 0 := by omega
+    obtain ⟨g3, hg3, h3⟩ := exists_of_gsum_pos hold s.gs (by omega)
+    cases g3 with
+    | nil => simp [hold] at h3
+    | cons e3 g3' =>
+      have : e3 = .send .sem := by
+        unfold hold at h3
+        split at h3
+        · rename_i hh; simpa using hh
+        · omega
+      exact enabled_direct hTc h hg3 rfl (Or.inl this)
+
+/-- every started goroutine that has not finished yields a step (possibly of another goroutine) -/
+theorem progress_gor {T semCap : Nat} {s : State} (hT1 : 1 ≤ T) (hTc : T ≤ semCap) (h : Inv T s)
+    (hph : ∀ y ∈ s.main, 1 ≤ rank y) {g : List Ev} (hg : g ∈ s.gs) (hne : g ≠ []) :
+    ∃ i s', step (capOf semCap) s i = some s' := by
+  cases g with
+  | nil => exact absurd rfl hne
+  | cons e g' =>
+    rcases shape_head (h.shape _ hg) with he | he | he | he | ⟨j, he⟩ | he
+    · subst he; exact enabled_recv_sem hT1 hTc h hph hg rfl
+    · exact enabled_direct hTc h hg rfl (Or.inl he)
+    · exact enabled_direct hTc h hg rfl (Or.inr (Or.inl he))
+    · exact enabled_direct hTc h hg rfl (Or.inr (Or.inr (Or.inl he)))
+    · subst he
+      by_cases hb : 0 < s.buf (.split j) ∨ s.closed (.split j) = true
+      · obtain ⟨s1, h1⟩ := recv_step (cap := capOf semCap) hb
+        exact gor_step h.np hg rfl h1
+      · have hbal := h.bal (.split j)
+        have h1 := gsum_mem_le (List.count (.recv (.split j))) s.gs _ hg
+        have h2 : 1 ≤ List.count (.recv (.split j)) (Ev.recv (.split j) :: g') := by simp
+        have hs := (mflat_phase h.mok hph).1 (.split j)
+        simp only [cnt] at hbal
+        simp at hbal
+        obtain ⟨g2, hg2, h3⟩ := exists_of_gsum_pos (List.count (.send (.split j))) s.gs (by omega)
+        have hsh := h.shape g2 hg2
+        unfold Shape at hsh
+        rcases hsh with h0 | ⟨j', h0 | h0 | h0⟩ | ⟨j', h0 | h0 | h0⟩ | ⟨j', h0 | h0 | h0⟩ <;> subst h0 <;>
+          simp [W, Cj, List.count_cons] at h3
+        · exact enabled_recv_sem hT1 hTc h hph hg2 rfl
+        · exact enabled_direct hTc h hg2 rfl (Or.inl rfl)
+        · exact enabled_direct hTc h hg2 rfl (Or.inr (Or.inr (Or.inl ⟨j', rfl⟩)))
+    · exact enabled_direct hTc h hg rfl (Or.inr (Or.inr (Or.inr he)))
+
+theorem safe_of_inv {T semCap : Nat} {s : State} (hT1 : 1 ≤ T) (hTc : T ≤ semCap) (h : Inv T s) : Safe (capOf semCap) s := by
+  refine ⟨h.np, fun g hg hh => release_ok hTc h hg hh, ?_⟩
+  cases hmain : s.main with
+  | nil =>
+    by_cases hall : ∀ g ∈ s.gs, g = []
+    · left; exact ⟨hmain, hall⟩
+    · right
+      have : ∃ g ∈ s.gs, g ≠ [] := by
+        apply Classical.byContradiction
+        intro hn
+        apply hall
+        intro g hg
+        apply Classical.byContradiction
+        intro hne
+        exact hn ⟨g, hg, hne⟩
+      obtain ⟨g, hg, hne⟩ := this
+      exact progress_gor hT1 hTc h (by simp [hmain]) hg hne
+  | cons x m =>
+    right
+    have hx := h.mok x (by simp [hmain])
+    unfold MOk at hx
+    rcases hx with hx | ⟨j, hx⟩ | ⟨j, hx⟩ | ⟨j, hx⟩ | ⟨j, hx⟩ | hx <;> subst hx
+    · -- a token is put into `sem`
+      have hc : s.closed .sem = false := by
+        cases hc : s.closed .sem with
+        | false => rfl
+        | true =>
+          have := h.clS _ hc
+          have h1 := mflat_count_mem (e := .send .sem) (M := s.main) (by simp [hmain])
+          simp only [cnt] at this; omega
+      have h2 := sem_slack h
+      have h5 := (mflat_facts (M := m) (fun y hy => h.mok y (by simp [hmain, hy]))).2
+      simp only [hmain, mflat, count_cons_ev] at h2
+      simp at h2
+      have hb : s.buf .sem < semCap := by omega
+      exact ⟨0, by simp [step, h.np, hmain, execEv, hc, capOf, hb]⟩
+    · exact ⟨0, by simp [step, h.np, hmain]⟩
+    · exact ⟨0, by simp [step, h.np, hmain]⟩
+    · exact ⟨0, by simp [step, h.np, hmain]⟩
+    · by_cases hb : 0 < s.buf (.chunk j) ∨ s.closed (.chunk j) = true
+      · obtain ⟨s1, h1⟩ := recv_step (cap := capOf semCap) hb
+        exact ⟨0, by simp [step, h.np, hmain, h1]⟩
+      · have hph : ∀ y ∈ s.main, 1 ≤ rank y := by
+          have := h.sorted
+          rw [hmain] at this ⊢
+          have h1 := (List.pairwise_cons.mp this).1
+          intro y hy
+          simp at hy
+          rcases hy with rfl | hy
+          · simp [rank]
+          · have := h1 y hy; simp [rank] at this ⊢; omega
+        have hbal := h.bal (.chunk j)
+        have h1 := mflat_count_mem (e := .recv (.chunk j)) (M := s.main) (by simp [hmain])
+        have hs := (mflat_phase h.mok hph).1 (.chunk j)
+        simp only [cnt] at hbal
+        simp at hbal
+        obtain ⟨g2, hg2, h3⟩ := exists_of_gsum_pos (List.count (.send (.chunk j))) s.gs (by omega)
+        refine progress_gor hT1 hTc h hph hg2 ?_
+        intro h0; subst h0; simp at h3
+    · have hc : s.closed .sem = false := by
+        cases hc : s.closed .sem with
+        | false => rfl
+        | true =>
+          have := h.clC _ hc
+          have h1 := mflat_count_mem (e := .close .sem) (M := s.main) (by simp [hmain])
+          simp only [cnt] at this; omega
+      exact ⟨0, by simp [step, h.np, hmain, execEv, hc]⟩
+
 end GV.MSMProto
